@@ -48,6 +48,19 @@ func c36Source(c *core.Ctx, r *core.R) []*wm.Spec {
 			c.Count("closed_paths")
 		}
 	}
+	// areas and relations without any tag (a multipolygon's outline, a relation used only as a member)
+	if r.Chance(0.6) {
+		n := 0
+		for _, s := range specs {
+			if (s.ID.Type == b6.FeatureTypeArea || s.ID.Type == b6.FeatureTypeRelation) && r.Chance(0.5) {
+				s.Tags = nil
+				n++
+			}
+		}
+		if n > 0 {
+			c.Count("untagged_areas_or_relations")
+		}
+	}
 	// features with many tags (17-40: more than any per-goroutine scratch sized for the usual handful)
 	if r.Chance(0.6) {
 		for i, n := 0, r.Range(2, 6); i < n; i++ {
@@ -219,7 +232,7 @@ func init() {
 		CaseCap: 60 * time.Minute,
 		Required: []string{"kind_basic", "kind_compact", "basic_goroutines_2", "basic_goroutines_7", "basic_goroutines_16",
 			"compact_goroutines_1", "compact_goroutines_2", "compact_goroutines_4", "compact_goroutines_8", "compact_goroutines_16", "clockwise_loops", "area_before_its_path",
-			"invalid_features", "order_shuffled", "order_areas_first", "builds_compared", "features_with_many_tags"},
+			"invalid_features", "order_shuffled", "order_areas_first", "builds_compared", "features_with_many_tags", "untagged_areas_or_relations"},
 		Run: func(c *core.Ctx) {
 			r := c.R
 			kind := "basic"
